@@ -142,3 +142,22 @@ Proof.
   intros m Hm. assert (m = 0 \/ m = 1 \/ m = 2) as H by lia.
   destruct H as [H|[H|H]]; subst m; repeat split; reflexivity.
 Qed.
+
+(* ---- needs_backup: the decision table ---- *)
+Theorem x_needs_backup_ok : forall mode ex base entries, mode < 3 ->
+  needs_backup mode ex base entries = x_needs_backup mode ex (has_backup base entries).
+Proof.
+  intros mode ex base entries Hm. assert (mode = 0 \/ mode = 1 \/ mode = 2) as H by lia.
+  destruct H as [H|[H|H]]; subst mode; unfold needs_backup, x_needs_backup;
+    repeat match goal with |- context [N.eqb ?a ?b] => let v := eval vm_compute in (N.eqb a b) in change (N.eqb a b) with v end;
+    cbn [andb]; destruct ex; reflexivity.
+Qed.
+
+(* ---- Operation::Special in both drivers ---- *)
+Definition special_code (r : option (list sp_action)) : N :=
+  match r with None => 0 | Some [SpMknod _] => 1 | Some [SpUnlink; SpMknod _] => 2 | Some _ => 3 end.
+
+Theorem x_special_ok : forall nc ex umask src,
+  special_code (special_worker nc ex umask src) = x_parfile_special nc ex /\
+  special_code (special_worker nc ex umask src) = x_parblock_special nc ex.
+Proof. intros [|] [|] umask src; split; reflexivity. Qed.
